@@ -1,4 +1,5 @@
 import Emboss.Model.Deps
+import Emboss.Model.Tarjan
 import Driver.Util
 open Emboss.Deps Driver
 
@@ -18,6 +19,49 @@ def depFnOf (tbl : List (Nat × List Nat)) : DepFn := fun f =>
   | some p => p.2
   | none => []
 
+def showGroups (gs : List (List Nat)) : String :=
+  ";".intercalate (gs.map showNatList)
+
+def showGraph (g : Graph) : String :=
+  "|".intercalate (g.map fun p => toString p.1 ++ ":" ++ showNatList p.2)
+
+/-- `12/F-T`: target 12 (or `K0`/`K1`/`K2` for a keyword), FieldReference (`F`) or bare
+Reference (`R`), in attribute (`A`/`-`), in atomic type (`T`/`-`). -/
+def parseOcc (s : String) : Option RefOcc :=
+  match s.splitOn "/" with
+  | [t, fl] =>
+    match fl.toList with
+    | [k, a, ty] =>
+      if (k != 'F' && k != 'R') || (a != 'A' && a != '-') || (ty != 'T' && ty != '-') then none
+      else
+        let mk (tg : Option Nat) (kw : Nat) : RefOcc :=
+          { target := tg, kw := kw, isFieldRef := k == 'F', inAttr := a == 'A', inAtomic := ty == 'T' }
+        match t with
+        | "K0" => some (mk none 0)
+        | "K1" => some (mk none 1)
+        | "K2" => some (mk none 2)
+        | _ => t.toNat?.map fun n => mk (some n) 0
+    | _ => none
+  | _ => none
+
+/-- `name:occ,occ|name:|…` -/
+def parseDefs (s : String) : Option (List Defn) :=
+  if s.isEmpty then some []
+  else (s.splitOn "|").mapM fun item =>
+    match item.splitOn ":" with
+    | [n, os] => do
+      let n ← n.toNat?
+      let os ← if os.isEmpty then some [] else (os.splitOn ",").mapM parseOcc
+      pure { name := n, refs := os }
+    | _ => none
+
+def showDepResult : DepResult → String
+  | .keywordErrors es => "keyword-errors " ++ ";".intercalate (es.map fun e => toString e.1 ++ ":" ++ toString e.2)
+  | .crash => "crash"
+  | .cycles gs => "cycles " ++ showGroups gs
+
+def sortNats (l : List Nat) : List Nat := isort (fun a b => decide (a ≤ b)) l
+
 def handle (line : String) : String :=
   match line.splitOn " " with
   | ["ORDER", arg] =>
@@ -30,6 +74,47 @@ def handle (line : String) : String :=
         | none => "assert-len"
       | _, _, _ => "bad-op"
     | _ => "bad-op"
+  | ["CYCLES", arg] =>
+    -- `_find_cycles(graph)`: the groups as the error construction orders them
+    match parseDeps arg with
+    | some g =>
+      match findCycles g with
+      | .keyError => "key-error"
+      | .outOfFuel => "out-of-fuel"
+      | .ok comps => "cycles " ++ showGroups (cycleGroups comps)
+    | none => "bad-op"
+  | ["CYCLESFUEL", fuel, arg] =>
+    match fuel.toNat?, parseDeps arg with
+    | some fuel, some g =>
+      match findCyclesFuel g fuel with
+      | .keyError => "key-error"
+      | .outOfFuel => "out-of-fuel"
+      | .ok comps => "cycles " ++ showGroups (cycleGroups comps)
+    | _, _ => "bad-op"
+  | ["RAWCOMPS", arg] =>
+    -- components in order of addition, members in pop order (not observable in Python)
+    match parseDeps arg with
+    | some g =>
+      match findCycles g with
+      | .keyError => "key-error"
+      | .outOfFuel => "out-of-fuel"
+      | .ok comps => "comps " ++ showGroups comps
+    | none => "bad-op"
+  | ["DEPGRAPH", arg] =>
+    match parseDefs arg with
+    | some defs =>
+      let (g, errs) := findDependencies defs
+      "graph " ++ showGraph (g.map fun p => (p.1, sortNats p.2)) ++ " errors " ++
+        ";".intercalate (errs.map fun e => toString e.1 ++ ":" ++ toString e.2)
+    | none => "bad-op"
+  | ["DEPCYC", arg] =>
+    match parseDefs arg with
+    | some defs => showDepResult (findObjectDependencyCycles defs)
+    | none => "bad-op"
+  | ["IMPORTS", arg] =>
+    match parseDeps arg with
+    | some ms => showDepResult (findModuleDependencyCycles (ms.map fun p => ⟨p.1, p.2⟩))
+    | none => "bad-op"
   | _ => "bad-op"
 
 def main : IO Unit := run handle
